@@ -1,6 +1,7 @@
 import IrefVerif.Oracle
 import IrefVerif.Lemmas.Split
 import IrefVerif.Lemmas.RefSuffix
+import IrefVerif.Lemmas.BaseModel
 import IrefVerif.Lemmas.IriBytes
 import IrefVerif.Props.Valid
 
@@ -82,6 +83,28 @@ theorem iri_suffix (a p : Text) (ha8 : ∀ c ∈ a, c < 256) (hp8 : ∀ c ∈ p,
     (ha : accepts .iriRef a = true) (hp : accepts .iriRef p = true) :
     Ref.suffix a p = some (refSuffixSpec a p) :=
   ref_suffix_model iriGB iriGB_ok iriGB_okAuth iriGB_okWE a p (Valid.iriRef_octets a ha8 ha) (Valid.iriRef_octets p hp8 hp)
+
+/-! ## the model of `base` -/
+
+/-- **`base` on the model = the specification**: for every reference of the grammar, the modelled
+`base` (the text up to the end of `Path.directory`, found by scanning back to the last `/`) is
+`baseSpec` — the reference's own scheme and authority, its path cut after the last `/` (empty
+when there is none), no query, no fragment. -/
+theorem base_model (G : Grammar) (ok : Grammar.Ok G) (x : Text) (hx : RE.Matches G.reference x) :
+    Ref.base x = baseSpec x := by
+  obtain ⟨_, wf⟩ := Lemmas.split_valid G ok x hx
+  have h := Lemmas.base_recompose (split x) wf
+  rw [Lemmas.recompose_split] at h
+  exact h
+
+/-- the directory scan is "up to and including the last `/`" for every text -/
+theorem directory_model (p : Text) : Path.directory p = upToLastSlash p := Lemmas.directory_eq p
+
+theorem uri_base (x : Text) (h8 : ∀ c ∈ x, c < 256) (hx : accepts .uriRef x = true) : Ref.base x = baseSpec x :=
+  base_model uriG uriG_ok x (Valid.uriRef_octets x h8 hx)
+
+theorem iri_base (x : Text) (h8 : ∀ c ∈ x, c < 256) (hx : accepts .iriRef x = true) : Ref.base x = baseSpec x :=
+  base_model iriGB iriGB_ok x (Valid.iriRef_octets x h8 hx)
 
 /-- the suffix exists exactly when the specification says so, and pushing nothing gives the empty path -/
 example : pushAllText [] [] = [] := rfl
